@@ -144,6 +144,10 @@ def apply_fault(recs, fault):
         lost = set(atoms[fault[1]:fault[2]])
     elif kind == 'F7':          # only a window of whole residues survives
         lost = set(atoms[:fault[1]]) | set(atoms[fault[2]:])
+    elif kind == 'F10':         # two single records lost
+        lost = {atoms[fault[1]], atoms[fault[2]]}
+    elif kind == 'F11':         # two whole residues lost (records a..b-1 and c..d-1)
+        lost = set(atoms[fault[1]:fault[2]]) | set(atoms[fault[3]:fault[4]])
     elif kind == 'F8':          # periodic loss: every p-th block of b records (phase q)
         _, b, per, q = fault
         lost = set(a for n, a in enumerate(atoms) if (n // b) % per == q)
@@ -189,6 +193,12 @@ def enumerate_faults(natoms, tier, rng, bounds=None):
                 for j in range(i + 1, len(bounds)) if bounds[j] - bounds[i] < natoms]
         wins = [('F7', bounds[i], bounds[j]) for i in range(len(bounds))
                 for j in range(i + 1, len(bounds)) if bounds[j] - bounds[i] < natoms]
+        res = [(bounds[i], bounds[i + 1]) for i in range(len(bounds) - 1)]
+        pairs = [('F11', a[0], a[1], b[0], b[1]) for i, a in enumerate(res) for b in res[i + 1:]]
+        if tier.get('f11') == 'all':
+            out += pairs
+        elif tier.get('f11'):
+            out += rng.sample(pairs, min(len(pairs), tier['f11']))
         if tier['f6'] == 'all':
             out += runs + wins
         else:
@@ -201,6 +211,11 @@ def enumerate_faults(natoms, tier, rng, bounds=None):
                     out.append(('F8', b, per, q))
     for _ in range(tier.get('f9', 0)):
         out.append(('F9', rng.choice((0.02, 0.05, 0.1, 0.3, 0.6, 0.9)), rng.randrange(1 << 30)))
+    near = [('F10', a, b) for a in range(natoms) for b in range(a + 1, min(natoms, a + 13))]
+    if tier.get('f10') == 'all':
+        out += near
+    elif tier.get('f10'):
+        out += rng.sample(near, min(len(near), tier['f10']))
     for k in range(natoms):
         out.append(('F1', k))
     for k in range(natoms):
